@@ -566,8 +566,13 @@ func runC18(r *evid.Run) {
 			if merr != nil && strings.Contains(merr.Error(), errBudget.Error()) {
 				continue // judged (as non-termination) by the main pass; do not recurse on disk
 			}
-			dres, derr := fsutil.FollowLinks(dfs, l)
+			dres, derr := fsutil.FollowLinks(&budgetFS{fs: dfs, limit: 2000}, l)
 			diskCases.Add(1)
+			if derr != nil && strings.Contains(derr.Error(), errBudget.Error()) {
+				c := c18Case{Tree: trees[ti], Requests: l, Disk: true}
+				r.Violate("no-termination", c.String()+": more than 2000 directory walks over the on-disk tree without an answer (the same tree in memory answers)", c)
+				continue
+			}
 			if merr != nil {
 				continue // the in-memory FS reports a wildcard below a non-directory as an error (acceptable, see the oracle); nothing to compare with
 			}
